@@ -228,9 +228,67 @@ def through_entry_points(ctx, g):
         ctx.add("oracle", "parse-differs-from-grammar", "a codec registered under a plain name is not used", {"type_name": "probe"})
 
 
+def through_aux_data(ctx, g):
+    """Every route on which the API parses a type name: the default serializer's encode / decode, AuxData._to_protobuf of a freshly built
+    table, the lazy decode behind AuxData.data of a table read from a message or from a loaded file (first AND second access).  A string
+    outside the grammar is rejected with TypeNameError on each of them; a grammar name is not."""
+    import io
+    AuxP = gtirb_from_repo.msg("AuxData")
+    bad = ["", "mapping<string", "sequence<>", "string,string", "tuple<string>x", "<", "a<b>>", "a<,b>", ">", "sequence<uint8_t>>", ",uint8_t", "sequence<uint8_t"]
+    good = [("sequence<uint8_t>", (2).to_bytes(8, "little") + b"\x01\x02", [1, 2]), ("uint8_t", b"\x07", 7),
+            ("mapping<string,uint8_t>", (1).to_bytes(8, "little") + (1).to_bytes(8, "little") + b"k\x03", {"k": 3})]
+
+    def outcome(f):
+        try:
+            return ("ok", f())
+        except Exception as e:  # noqa: BLE001
+            return ("err", exc_name(g, e))
+
+    def loaded_table(tn, raw, via_file):
+        if not via_file:
+            p = AuxP()
+            p.type_name, p.data = tn, raw
+            return g.AuxData._from_protobuf(p, g.IR())
+        ir = g.IR()
+        m = g.Module(name="m", ir=ir)
+        m.aux_data["t"] = g.AuxData(g.serialization.UnknownData(raw), tn)      # opaque payloads are written verbatim under any name
+        buf = io.BytesIO()
+        ir.save_protobuf_file(buf)
+        return g.IR.load_protobuf_file(io.BytesIO(buf.getvalue())).modules[0].aux_data["t"]
+    for tn in bad:
+        routes = [("serializer.encode", lambda: g.AuxData.serializer.encode(io.BytesIO(), 5, tn)),
+                  ("serializer.decode", lambda: g.AuxData.serializer.decode(b"\x05\0\0\0\0\0\0\0", tn)),
+                  ("AuxData._to_protobuf", lambda: g.AuxData(5, tn)._to_protobuf())]
+        for via_file in (False, True):
+            r = outcome(lambda: loaded_table(tn, b"\x05\0\0\0\0\0\0\0", via_file))
+            if r[0] != "ok":
+                ctx.count("aux_route_setup_refused:" + r[1])
+                continue
+            t = r[1]
+            nm = "AuxData.data of a table read from a %s" % ("loaded file" if via_file else "message")
+            routes += [(nm, lambda t=t: t.data), (nm + " (second access)", lambda t=t: t.data)]
+        for nm, f in routes:
+            ctx.case("aux-route:%s:%r" % (nm, tn), True)
+            ctx.count("aux_route_cases")
+            r = outcome(f)
+            got = "accepted (%.60r)" % (r[1],) if r[0] == "ok" else r[1]
+            if got != "TypeNameError":
+                ctx.add("oracle", "parse-differs-from-grammar", "%s with the type name %r is %s; the string is outside the grammar and must be rejected with TypeNameError"
+                        % (nm, tn, got), {"type_name": tn, "entry_point": nm, "got": got})
+    for tn, raw, val in good:
+        for via_file in (False, True):
+            ctx.case("aux-route-good:%s:%s" % (tn, via_file), True)
+            ctx.count("aux_route_cases")
+            r = outcome(lambda: loaded_table(tn, raw, via_file).data)
+            if r != ("ok", val):
+                ctx.add("oracle", "parse-differs-from-grammar", "AuxData.data of a loaded table of type %r gives %r; the name is in the grammar and its tree decodes the bytes to %r"
+                        % (tn, r, val), {"type_name": tn})
+
+
 def run(ctx):
     g = gtirb_from_repo.load()
     through_entry_points(ctx, g)
+    through_aux_data(ctx, g)
     cases = []
     maxlen = 7 if ctx.quick else 9
     alphabet = "ab<>,"
